@@ -472,8 +472,8 @@ func (obj *SparseReal64Vector) Permute(pi []int) error {
     }
   }
   obj.vectorSparseIndex = vectorSparseIndex{}
-  for i := 0; i < len(pi); i++ {
-    obj.indexInsert(pi[i])
+  for k, _ := range obj.values {
+    obj.indexInsert(k)
   }
   return nil
 }
